@@ -22,3 +22,10 @@ package syncgroup
 //@   layout v1..v3 ThrottleTimeMS int32, ErrorCode int16, Assignments bytes
 //@   layout v4 _ struct{} @-1, ThrottleTimeMS int32, ErrorCode int16, Assignments bytes
 //@   layout v5 _ struct{} @-1, ThrottleTimeMS int32, ErrorCode int16, ProtocolType string, ProtocolName string, Assignments bytes
+
+//@ property C12
+// Routing (C12): which of the protocol message interfaces the request satisfies decides where the Transport sends it
+// (connPool.sendRequest tests BrokerMessage, then GroupMessage, then TransactionalMessage).
+//@ wire Request
+//@   implements protocol.GroupMessage
+//@   notimplements protocol.BrokerMessage
